@@ -23,9 +23,9 @@ func (*C17) Rule() string {
 }
 
 func (*C17) Plan(tier string) orch.Plan {
-	n := 200
+	n := 2000
 	if tier == "thorough" {
-		n = 20000
+		n = 150000
 	}
 	return orch.Plan{Episodes: n, Batch: 1}
 }
